@@ -7,6 +7,7 @@ import (
 	"encoding/json"
 	"errors"
 	"fmt"
+	"github.com/failsafe-go/failsafe-go/retrypolicy"
 	"io"
 	"net"
 	"net/http"
@@ -131,7 +132,7 @@ func runHTTPScenario(t *testing.T, sc hScenario) (lines []M, problem string) {
 		t0 := time.Now()
 		var mu sync.Mutex
 		add := func(m M) { mu.Lock(); lines = append(lines, m); mu.Unlock() }
-		cfg := M{"script": sc.Script, "maxRetries": sc.MaxRetries, "unitsPerSec": 1}
+		cfg := M{"script": sc.Script, "maxRetries": sc.MaxRetries, "unitsPerSec": 1, "policies": append([]string{}, sc.Policies...)}
 		add(M{"ev": "HConfig", "cfg": cfg, "scenario": sc})
 		data := bytes.Repeat([]byte("0123456789abcdef"), (sc.BodySize+15)/16)[:sc.BodySize]
 		if sc.BodyKind == "none" || sc.BodyKind == "empty" {
@@ -238,6 +239,9 @@ func runHTTPScenario(t *testing.T, sc hScenario) (lines []M, problem string) {
 			switch p {
 			case "retry":
 				ps = append(ps, rb.Build())
+			case "retryx":
+				// the default policy of the adapter: when the retries run out the caller gets an ExceededError carrying the last response
+				ps = append(ps, failsafehttp.RetryPolicyBuilder().WithMaxRetries(sc.MaxRetries).Build())
 			case "retrybo":
 				// a backoff is configured as well: the server's Retry-After (the delay function) still has to win
 				ps = append(ps, failsafehttp.RetryPolicyBuilder().WithMaxRetries(sc.MaxRetries).ReturnLastFailure().WithBackoff(unit/10, unit/2).Build())
@@ -318,6 +322,15 @@ func runHTTPScenario(t *testing.T, sc hScenario) (lines []M, problem string) {
 			}
 		} else if rerr != nil {
 			final["err"] = rerr.Error()
+			var ex retrypolicy.ExceededError
+			if errors.As(rerr, &ex) {
+				final["exceeded"] = true
+				final["exStatus"] = -1
+				if lr, ok := ex.LastResult.(*http.Response); ok && lr != nil {
+					final["exStatus"] = lr.StatusCode
+					lr.Body.Close()
+				}
+			}
 		}
 		// attempts as the server saw them
 		mu.Lock()
@@ -422,7 +435,7 @@ func runGRPCScenario(t *testing.T, sc hScenario) (lines []M, problem string) {
 		}
 	}()
 	synctest.Test(t, func(t *testing.T) {
-		cfg := M{"script": sc.Script, "maxRetries": sc.MaxRetries, "unitsPerSec": 1}
+		cfg := M{"script": sc.Script, "maxRetries": sc.MaxRetries, "unitsPerSec": 1, "policies": append([]string{}, sc.Policies...)}
 		lines = append(lines, M{"ev": "HConfig", "cfg": cfg, "scenario": sc})
 		deadline := time.Now().Add(24 * time.Hour)
 		ctx := context.WithValue(context.Background(), ctxKeyT("caller"), "v1")
